@@ -9,7 +9,7 @@
    normalizer, trend and variance clipping.  Kinv is whatever matrix the implementation obtained from
    LAPACK; theorems state what they assume about it.   mat_of / vec_of read lists as index functions. *)
 From Coq Require Import Reals List Sorted.
-From GS Require Import Num Loops Krigesum_gen C05_Mat C05_RInst C05_Model C05_Proofs C05_Examples.
+From GS Require Import Num Loops Krigesum_gen C05_Mat C05_RInst C05_Model C05_History C05_Proofs C05_Examples.
 
 (* the list-of-lists built by the model's _get_krige_mat has the entries the theorems speak about *)
 Theorem C05_matrix_entries :
@@ -187,3 +187,15 @@ Theorem C05_drift_basis :
     (1 <= length sel <= order)%nat /\ Forall (fun i : nat => (i < dim)%nat) sel /\ Sorted.StronglySorted le sel.
 Proof. exact drift_basis_spec. Qed.
 Print Assumptions C05_drift_basis.
+
+(* one Krige object as a state machine (c05/C05_History.v): version counters of model parameters, conditions and
+   post-processing settings; _krige_pos and _krige_mat remember the versions they were computed from; ops = in-place
+   model edit, set_drift_functions, set_condition (with / without new data), model assignment (other model or the
+   same object again), mean / trend / normalizer setters, calls (new targets or the stored ones, return_var either way).
+   In EVERY history each call that is not preceded by an un-refreshed in-place edit observes exactly what a fresh object
+   built from the present settings observes (run lists (observed, fresh, dirty) per call) *)
+Theorem C05_history_coherent :
+  forall (ops : list Op) (s : KState) (d : bool), (d = false -> coherent s) ->
+    Forall (fun r : Out * Out * bool => snd r = false -> fst (fst r) = snd (fst r)) (run s d ops).
+Proof. exact history_coherent. Qed.
+Print Assumptions C05_history_coherent.
